@@ -11,7 +11,7 @@ from collections.abc import Callable
 import logging
 
 from xknx.exceptions import CommunicationError, CouldNotParseKNXIP, IncompleteKNXIPFrame
-from xknx.knxip import HPAI, HostProtocol, KNXIPFrame
+from xknx.knxip import HPAI, HostProtocol, KNXIPFrame, KNXIPHeader
 
 from .ip_transport import KNXIPTransport
 
@@ -82,37 +82,56 @@ class TCPTransport(KNXIPTransport):
         self._buffer = b""
 
     def data_received_callback(self, raw: bytes) -> None:
-        """Parse and process KNXIP frame. Callback for having received data over TCP."""
+        """Parse and process KNXIP frames. Callback for having received data over TCP."""
         if self._buffer:
             raw = self._buffer + raw
             self._buffer = b""
-        if not raw:
-            return
-        try:
-            knxipframe, next_frame_part = KNXIPFrame.from_knx(raw)
-        except IncompleteKNXIPFrame:
-            self._buffer = raw
-            raw_socket_logger.debug(
-                "Incomplete KNX/IP frame. Waiting for rest: %s", raw.hex()
-            )
-            return
-        except CouldNotParseKNXIP as couldnotparseknxip:
-            knx_logger.debug(
-                "Unsupported KNXIPFrame from %s: %s in %s",
-                self.remote_hpai,
-                couldnotparseknxip.description,
-                raw.hex(),
-            )
-        else:
+        # one chunk may carry any number of frames - handle them one after the other
+        while raw:
+            try:
+                knxipframe, next_frame_part = KNXIPFrame.from_knx(raw)
+            except IncompleteKNXIPFrame:
+                self._buffer = raw
+                raw_socket_logger.debug(
+                    "Incomplete KNX/IP frame. Waiting for rest: %s", raw.hex()
+                )
+                return
+            except Exception as err:  # pylint: disable=broad-exception-caught
+                # Runs in the protocol's data_received callback - neither an unsupported
+                # frame nor an unforeseen parsing error may escape or stall the stream.
+                if isinstance(err, CouldNotParseKNXIP):
+                    knx_logger.debug(
+                        "Unsupported KNXIPFrame from %s: %s in %s",
+                        self.remote_hpai,
+                        err.description,
+                        raw.hex(),
+                    )
+                else:
+                    logger.exception(
+                        "Unexpected error parsing KNX/IP frame: %s", raw.hex()
+                    )
+                # skip the frame by the total length its header announces
+                total_length = int.from_bytes(raw[4:6], "big")
+                if (
+                    raw[0] != KNXIPHeader.HEADERLENGTH
+                    or total_length < KNXIPHeader.HEADERLENGTH
+                ):
+                    # no readable length - the stream can not be resynchronized
+                    return
+                if len(raw) < total_length:
+                    # wait for the rest of the frame before skipping it
+                    self._buffer = raw
+                    return
+                raw = raw[total_length:]
+                continue
             knx_logger.debug(
                 "Received from %s: %s",
                 self.remote_hpai,
                 knxipframe,
             )
             self.handle_knxipframe(knxipframe, self.remote_hpai)
-        # parse data after current KNX/IP frame
-        if next_frame_part:
-            self.data_received_callback(next_frame_part)
+            # parse data after current KNX/IP frame
+            raw = next_frame_part
 
     async def connect(self) -> None:
         """Connect TCP socket."""
